@@ -81,18 +81,14 @@ def opHistory (inp imp : Json) : Except String Json := do
     | "run" =>
       let forced := getBoolD st "forced" false
       let fault := (getNat st "fault").toOption
-      let r := run S w.src w.cfg forced fault w.out
+      -- CLI path: the run proper.  Build-script path (Typegen/BuildPath.lean): run, then on success the clean-up
+      -- (`finalize_generation` removes reserved-named files not in the list the run returned; the directory listing is
+      -- `fileNames`); a stale reserved-named file that cannot be removed makes the clean-up fail: the run is reported as
+      -- failed and its record is dropped again (fix 2a70fe0)
+      let r : Res × Action × Out (List Nat × Bool × Bool) (List Nat) :=
+        if build then R.runBuildF S (fun n => reservedHere.contains n) fileNames (getS st "leftover").toOption.isSome w.src w.cfg forced fault w.out
+        else run S w.src w.cfg forced fault w.out
       w := { w with out := r.2.2 }
-      -- build-script path: OutputManager::finalize_generation removes reserved-named files that are not in
-      -- the list returned by generate_bindings ([] when no commands were found; everything present on a cache hit)
-      if build && r.1 == .ok then
-        -- (the model of the clean-up lives in Typegen/BuildPath.lean; the directory listing is `fileNames`)
-        w := { w with out := R.finalize (fun n => reservedHere.contains n) fileNames (R.keptOf S w.src w.cfg r.2.1 fileNames w.out) w.out }
-      -- a stale reserved-named file that cannot be removed makes finalize_generation fail (build path only; the CLI
-      -- does not clean up): the run is reported as failed and its record is dropped again (fix 2a70fe0)
-      let finalizeFails := build && r.1 == .ok && r.2.1 != .noCommands && (getS st "leftover").toOption.isSome
-      if finalizeFails then w := { w with out := applyOp w.out .removeCache }
-      let r : Res × Action × Out (List Nat × Bool × Bool) (List Nat) := if finalizeFails then (.err, .failed, w.out) else r
       let gen := S.gen w.src w.cfg
       let current := gen.all fun p => w.out.files p.1 == some p.2
       obs := obs.push (obj [("res", jS (resStr r.1)), ("action", jS (actStr r.2.1)),
